@@ -13,6 +13,7 @@ Inductive expr :=
 | ECall (f : expr) (args : list expr)        (* f(args); a conversion T(x) is a call of EId "T" *)
 | ESel (e : expr) (name : string)            (* e.name *)
 | EIndex (e i : expr)                        (* e[i] *)
+| ESlice (e : expr) (lo hi : option expr)    (* e[lo:hi] *)
 | EBin (op : string) (a b : expr)
 | EUn (op : string) (a : expr)
 | EOther (what : string).
